@@ -7,6 +7,7 @@ import (
 	"fmt"
 	"io"
 	"net"
+	"os"
 	"sort"
 	"strconv"
 	"strings"
@@ -24,6 +25,7 @@ import (
 	"github.com/vx-labs/wasp/v4/wasp/audit"
 	"github.com/vx-labs/wasp/v4/wasp/auth"
 	"github.com/vx-labs/wasp/v4/wasp/distributed"
+	"github.com/vx-labs/wasp/v4/wasp/messages"
 	"github.com/vx-labs/wasp/v4/wasp/transport"
 	"go.uber.org/zap"
 	"google.golang.org/grpc"
@@ -127,6 +129,54 @@ func (l *memLog) snapshot() []*packet.Publish {
 	return append([]*packet.Publish{}, l.entries...)
 }
 
+// mlog is what the broker needs from a message log
+type mlog interface {
+	io.Closer
+	Append(p *packet.Publish) error
+	Get(offset uint64) (*packet.Publish, error)
+	Consume(ctx context.Context, name string, f func(uint64, *packet.Publish) error) error
+	Stream(ctx context.Context, consumer stream.Consumer, f func(*packet.Publish) error) error
+}
+
+// countingLog passes everything to the real commit-log store (wasp/messages) and counts what went in and what the
+// consumer has handed over, so that quiescence can be told exactly (the store's consumer polls every 100 ms)
+type countingLog struct {
+	mlog
+	dir      string
+	appended int64
+	consumed int64
+}
+
+func (l *countingLog) Append(p *packet.Publish) error {
+	bump()
+	err := l.mlog.Append(p)
+	if err == nil {
+		atomic.AddInt64(&l.appended, 1)
+	}
+	bump()
+	return err
+}
+
+func (l *countingLog) Consume(ctx context.Context, name string, f func(uint64, *packet.Publish) error) error {
+	return l.mlog.Consume(ctx, name, func(off uint64, p *packet.Publish) error {
+		bump()
+		err := f(off, p)
+		atomic.AddInt64(&l.consumed, 1)
+		bump()
+		return err
+	})
+}
+
+func (l *countingLog) Close() error {
+	err := l.mlog.Close()
+	os.RemoveAll(l.dir)
+	return err
+}
+
+func (l *countingLog) caughtUp() bool {
+	return atomic.LoadInt64(&l.consumed) >= atomic.LoadInt64(&l.appended)
+}
+
 // ---------------------------------------------------------------- plumbing
 
 type nullTaps struct{}
@@ -168,7 +218,9 @@ func (t *bTransport) Call(id uint64, f func(*grpc.ClientConn) error) error {
 
 type bnode struct {
 	id        uint64
-	log       *memLog
+	log       *memLog      // the in-memory log with fault injection (nil when the real store is used)
+	real      *countingLog // the real commit-log store in a scratch directory (nil otherwise)
+	store     mlog
 	state     distributed.State
 	bq        *memberlist.TransmitLimitedQueue
 	local     wasp.LocalState
@@ -182,9 +234,53 @@ type bnode struct {
 	pending   map[int][][]byte // gossip not yet delivered, per destination node index
 }
 
+// vconn is the broker's end of a client connection. Read deadlines are kept on a virtual clock that only the
+// `elapse` / `idle` operations move, so keep-alive behaviour is deterministic and takes no wall-clock time; with
+// `realtime` they go to the pipe unchanged.
+type vconn struct {
+	net.Conn
+	b   *brokerDomain
+	mu  sync.Mutex
+	rdl int64 // virtual read deadline (ms), 0 = none
+}
+
+func (c *vconn) SetDeadline(t time.Time) error {
+	if c.b.realtime {
+		return c.Conn.SetDeadline(t)
+	}
+	return c.SetReadDeadline(t)
+}
+
+func (c *vconn) SetReadDeadline(t time.Time) error {
+	if c.b.realtime {
+		return c.Conn.SetReadDeadline(t)
+	}
+	c.mu.Lock()
+	defer c.mu.Unlock()
+	if t.IsZero() {
+		c.rdl = 0
+	} else {
+		d := time.Until(t)
+		c.rdl = atomic.LoadInt64(&c.b.vnow) + int64((d+5*time.Millisecond)/(10*time.Millisecond))*10
+		if c.rdl == 0 {
+			c.rdl = 1
+		}
+	}
+	bump()
+	return c.Conn.SetReadDeadline(time.Time{})
+}
+
+func (c *vconn) due(now int64) bool {
+	c.mu.Lock()
+	defer c.mu.Unlock()
+	return c.rdl != 0 && c.rdl < now
+}
+
 type bclient struct {
 	name       string
 	node       int
+	seq        int
+	srv        *vconn
 	conn       net.Conn
 	mu         sync.Mutex
 	inbox      []packet.Packet
@@ -210,6 +306,10 @@ type brokerDomain struct {
 	unreachable map[uint64]bool
 	failed      map[uint64]bool
 	settleMs    int
+	vnow        int64 // virtual clock of the connections' read deadlines (ms)
+	realtime    bool
+	realLog     bool // the next `reset` gives every node a real commit-log store instead of the in-memory log
+	seq         int
 	runaway     bool // the broker never became quiet within the settle deadline: stop driving it
 }
 
@@ -231,7 +331,7 @@ func (b *brokerDomain) shutdown() {
 	}
 	for _, n := range b.nodes {
 		n.cancel()
-		n.log.Close()
+		n.store.Close()
 		if n.srv != nil {
 			n.srv.Stop()
 		}
@@ -248,32 +348,48 @@ func (b *brokerDomain) reset(nn int) {
 	b.shutdown()
 	b.unreachable = map[uint64]bool{}
 	b.failed = map[uint64]bool{}
+	atomic.StoreInt64(&b.vnow, 0)
+	b.realtime = false
 	logger := zap.NewNop()
 	for i := 0; i < nn; i++ {
 		id := uint64(i + 1)
 		ctx, cancel := context.WithCancel(wasp.StoreLogger(context.Background(), logger))
 		n := &bnode{id: id, cancel: cancel, pending: map[int][][]byte{}}
-		n.log = newMemLog()
+		if b.realLog {
+			dir, err := os.MkdirTemp("", "waspharness-log")
+			if err != nil {
+				panic(err)
+			}
+			st, err := messages.New(dir)
+			if err != nil {
+				panic(err)
+			}
+			n.real = &countingLog{mlog: st, dir: dir}
+			n.store = n.real
+		} else {
+			n.log = newMemLog()
+			n.store = n.log
+		}
 		n.bq = &memberlist.TransmitLimitedQueue{RetransmitMult: 1, NumNodes: func() int { return 1 }}
 		n.state = distributed.NewState(id, n.bq, audit.VerifRecorder(func(string, string, map[string]string) { bump() }))
 		n.local = wasp.NewState(id)
 		n.inflights = ack.NewQueue()
-		distributor := &wasp.PublishDistributor{ID: id, State: n.state.Subscriptions(), Storage: n.log, Logger: logger, Transport: &bTransport{b: b, self: id}}
+		distributor := &wasp.PublishDistributor{ID: id, State: n.state.Subscriptions(), Storage: n.store, Logger: logger, Transport: &bTransport{b: b, self: id}}
 		w := wasp.NewWriter(id, n.state.Subscriptions(), n.local, n.inflights)
 		// id 0 is not a usable MQTT packet id: the writer would sleep 100 ms on it once; take it out of the way
 		wasp.VerifWriterPool(w).Get()
 		n.writer = w
-		go wasp.SchedulePublishes(id, w, n.log)(ctx)
-		go w.Run(ctx, n.log)
+		go wasp.SchedulePublishes(id, w, n.store)(ctx)
+		go w.Run(ctx, n.store)
 		proc := wasp.NewPacketProcessor(n.local, n.state, w, nullTaps{}, distributor, n.inflights)
 		go proc.Run(ctx)
 		n.manager = wasp.NewConnectionManager(harnessAuth{}, n.local, n.state, w, proc, n.inflights)
 		go n.manager.Run(ctx)
-		n.members = wasp.NewNodeMemberManager(id, n.log, n.state)
+		n.members = wasp.NewNodeMemberManager(id, n.store, n.state)
 		// gRPC endpoint of this node over an in-memory listener
 		lis := bufconn.Listen(1 << 20)
 		n.srv = grpc.NewServer()
-		wasp.NewMQTTServer(n.state, n.local, n.log, distributor, nil).Serve(n.srv)
+		wasp.NewMQTTServer(n.state, n.local, n.store, distributor, nil).Serve(n.srv)
 		go n.srv.Serve(lis)
 		cc, err := grpc.DialContext(ctx, "bufnet", grpc.WithContextDialer(func(context.Context, string) (net.Conn, error) { return lis.Dial() }), grpc.WithInsecure())
 		if err == nil {
@@ -289,6 +405,9 @@ func (b *brokerDomain) reset(nn int) {
 func (b *brokerDomain) idleNow() bool {
 	for _, n := range b.nodes {
 		if !wasp.VerifWriterIdle(n.writer) {
+			return false
+		}
+		if n.real != nil && !n.real.caughtUp() {
 			return false
 		}
 	}
@@ -315,6 +434,46 @@ func (b *brokerDomain) settle() {
 	}
 	// five seconds of uninterrupted activity after a single client operation: something feeds itself
 	b.runaway = true
+}
+
+// elapse moves the virtual clock and fires the read deadlines that are now in the past: sessions first (node by node,
+// in connection order), then connections still waiting for their CONNECT packet
+func (b *brokerDomain) elapse(ms int64) {
+	if b.realtime {
+		return
+	}
+	now := atomic.AddInt64(&b.vnow, ms)
+	type cand struct {
+		c    *bclient
+		sess bool
+	}
+	var due []cand
+	for _, c := range b.clients {
+		if c.srv == nil || !c.srv.due(now) {
+			continue
+		}
+		c.mu.Lock()
+		closed := c.closed
+		c.mu.Unlock()
+		if closed {
+			continue
+		}
+		due = append(due, cand{c, b.nodes[c.node].local.Get("S"+c.name) != nil})
+	}
+	sort.Slice(due, func(i, j int) bool {
+		if due[i].sess != due[j].sess {
+			return due[i].sess
+		}
+		if due[i].sess && due[i].c.node != due[j].c.node {
+			return due[i].c.node < due[j].c.node
+		}
+		return due[i].c.seq < due[j].c.seq
+	})
+	for _, d := range due {
+		d.c.srv.Conn.SetReadDeadline(time.Now().Add(-time.Second))
+		bump()
+		b.settle()
+	}
 }
 
 // collectGossip moves everything queued for broadcast on node i into the per-destination pending lists
@@ -652,8 +811,8 @@ func (b *brokerDomain) renderInbox(c *bclient) string {
 		}
 	}
 	sort.Strings(out)
-	if len(out) > 300 {
-		out = append(out[:300], fmt.Sprintf("…+%d-more", len(out)-300))
+	if len(out) > 1000 {
+		out = append(out[:1000], fmt.Sprintf("…+%d-more", len(out)-1000))
 	}
 	if closed {
 		out = append(out, "CLOSED")
@@ -705,6 +864,8 @@ func (b *brokerDomain) step(f []string) string {
 		if len(f) > 1 {
 			nn = atoi(f[1])
 		}
+		// reset <n> real: every node gets a real commit-log store (wasp/messages) instead of the in-memory log
+		b.realLog = len(f) > 2 && f[2] == "real"
 		b.reset(nn)
 		return "ok"
 	case "bye":
@@ -712,6 +873,10 @@ func (b *brokerDomain) step(f []string) string {
 		return "ok"
 	case "settlems":
 		b.settleMs = atoi(f[1])
+		return "ok"
+	case "realtime":
+		// read deadlines go to the pipes unchanged from now on (set before connecting anybody)
+		b.realtime = f[1] == "1"
 		return "ok"
 	}
 	if b.nodes == nil {
@@ -726,7 +891,9 @@ func (b *brokerDomain) step(f []string) string {
 			return "bad-op"
 		}
 		srvEnd, cliEnd := net.Pipe()
-		c := &bclient{name: f[1], node: ni, conn: cliEnd, enc: encoder.New(), midCan: map[int32]int{}, canMid: map[int]int32{}}
+		b.seq++
+		vc := &vconn{Conn: srvEnd, b: b}
+		c := &bclient{name: f[1], node: ni, seq: b.seq, srv: vc, conn: cliEnd, enc: encoder.New(), midCan: map[int32]int{}, canMid: map[int]int32{}}
 		if old, ok := b.clients[f[1]]; ok {
 			old.conn.Close()
 		} else {
@@ -736,7 +903,7 @@ func (b *brokerDomain) step(f []string) string {
 		b.clients[f[1]] = c
 		go c.reader()
 		ctx := wasp.StoreLogger(context.Background(), zap.NewNop())
-		go b.nodes[ni].manager.Setup(ctx, transport.Metadata{Name: "tcp", RemoteAddress: f[1], Channel: srvEnd})
+		go b.nodes[ni].manager.Setup(ctx, transport.Metadata{Name: "tcp", RemoteAddress: f[1], Channel: vc})
 		user, pass := f[4], "ok"
 		if strings.HasPrefix(user, "!") {
 			user, pass = user[1:], "wrong"
@@ -751,7 +918,9 @@ func (b *brokerDomain) step(f []string) string {
 		// a connection without CONNECT (for raw byte streams)
 		ni := atoi(f[2])
 		srvEnd, cliEnd := net.Pipe()
-		c := &bclient{name: f[1], node: ni, conn: cliEnd, enc: encoder.New(), midCan: map[int32]int{}, canMid: map[int]int32{}}
+		b.seq++
+		vc := &vconn{Conn: srvEnd, b: b}
+		c := &bclient{name: f[1], node: ni, seq: b.seq, srv: vc, conn: cliEnd, enc: encoder.New(), midCan: map[int32]int{}, canMid: map[int]int32{}}
 		if old, ok := b.clients[f[1]]; ok {
 			old.conn.Close()
 		} else {
@@ -761,7 +930,7 @@ func (b *brokerDomain) step(f []string) string {
 		b.clients[f[1]] = c
 		go c.reader()
 		ctx := wasp.StoreLogger(context.Background(), zap.NewNop())
-		go b.nodes[ni].manager.Setup(ctx, transport.Metadata{Name: "tcp", RemoteAddress: f[1], Channel: srvEnd})
+		go b.nodes[ni].manager.Setup(ctx, transport.Metadata{Name: "tcp", RemoteAddress: f[1], Channel: vc})
 		return b.observe("ok")
 	case f[0] == "sub" && len(f) == 4:
 		c := cl(f[1])
@@ -794,6 +963,21 @@ func (b *brokerDomain) step(f []string) string {
 		pl, _ := unhex(f[3])
 		p := &packet.Publish{Header: &packet.Header{Qos: int32(atoi(f[4])), Retain: f[5] == "1", Dup: f[6] == "1"}, Topic: topicOf(f[2]), Payload: pl, MessageId: int32(atoi(f[7]))}
 		return b.observe(c.send(p))
+	case f[0] == "burst" && len(f) == 6:
+		// burst <c> <topic> <qos> <first> <n>: n publishes back to back, payload = 16-bit counter from <first>
+		c := cl(f[1])
+		if c == nil {
+			return "noclient"
+		}
+		res := "ok"
+		first, n := atoi(f[4]), atoi(f[5])
+		for k := first; k < first+n; k++ {
+			p := &packet.Publish{Header: &packet.Header{Qos: int32(atoi(f[3]))}, Topic: topicOf(f[2]), Payload: []byte{byte(k >> 8), byte(k)}, MessageId: int32(k%65535 + 1)}
+			if r := c.send(p); r != "ok" {
+				res = r
+			}
+		}
+		return b.observe(res)
 	case f[0] == "ack" && len(f) == 4:
 		// ack <c> <puback|pubrec|pubcomp> <#canonical> : answer one of the broker's deliveries
 		c := cl(f[1])
@@ -946,6 +1130,9 @@ func (b *brokerDomain) step(f []string) string {
 	case f[0] == "logfail" && len(f) == 3:
 		// logfail <node> <all|none|k>: Append calls of that node's log fail
 		l := b.nodes[atoi(f[1])].log
+		if l == nil {
+			return "bad-op"
+		}
 		l.mu.Lock()
 		switch f[2] {
 		case "all":
@@ -982,6 +1169,11 @@ func (b *brokerDomain) step(f []string) string {
 		return b.observe("ok")
 	case f[0] == "idle" && len(f) == 2:
 		time.Sleep(time.Duration(atoi(f[1])) * time.Millisecond)
+		b.elapse(int64(atoi(f[1])))
+		return b.observe("ok")
+	case f[0] == "elapse" && len(f) == 2:
+		// the connections' clock moves, no wall-clock time passes
+		b.elapse(int64(atoi(f[1])))
 		return b.observe("ok")
 	case f[0] == "state" && len(f) == 2:
 		ni := atoi(f[1])
@@ -1006,6 +1198,9 @@ func (b *brokerDomain) step(f []string) string {
 		return showList(ss) + " " + showList(us) + " " + showList(rs) + " " + showList(ls)
 	case f[0] == "log" && len(f) == 2:
 		out := []string{}
+		if b.nodes[atoi(f[1])].log == nil {
+			return "bad-op"
+		}
 		for i, p := range b.nodes[atoi(f[1])].log.snapshot() {
 			if i >= 300 {
 				out = append(out, "…more")
